@@ -20,9 +20,11 @@
                                     finishing after any history, for both values of `quiet`, is L2's `edits` itself.
      *_every_machine                the same for EVERY machine (all seven classes, incl. MultiSetEdit + matcher) that
                                     satisfies the structural invariant `invG`, for every `make_distinct` oracle
-  MISSING for DictNode documents: that the fresh MultiSetEdit `mkMs` satisfies the invariant (admissibility of the
-  recorded solver answers) and its L3→L2 link to `msScript`; validated by the `history`/`trace` streams against the
-  real code, and L2 by the `script` stream.
+     no_internal_error_docs, history_independent_docs
+                                    the FULL statements for every pair of DOCUMENTS and every option set; the result
+                                    of finishing after any history is `toD (diffDocs o orc f t)`, L2's script.
+                                    Hypotheses: distinct keys, `OrcFull` (solver answers of full size), and without
+                                    key edits `fkOK` (D24).
 -/
 import GtModel.Props.C04
 import GtModel.Proofs.LazyEd
@@ -116,11 +118,11 @@ theorem history_independent (q1 q2 : Bool) (o : Opts) (orc : Orc) (f t : Tree) (
     (C04.mkEdit_invariant o orc f t hf hkf hkt ht F (n + 1) hF hn) hF ops
 
 /-- L3 → L2 refinement: the ghost script and final cost of the fresh machine are L2's `edits` (as the harness dumps
-    it: `toD`), for every `f` without `DictNode` -/
-theorem mkEdit_refines_L2 (o : Opts) (orc : Orc) (f t : Tree) (hf : f.noDict = true) :
+    it: `toD`), for EVERY pair of trees and every oracle — MultiSetEdit included -/
+theorem mkEdit_refines_L2 (o : Opts) (orc : Orc) (f t : Tree) :
     scriptG C04.noAtoms (mkEdit o orc [] [] f t) = toD (edits o orc.assign [] [] f t) ∧
       finG C04.noAtoms (mkEdit o orc [] [] f t) = (edits o orc.assign [] [] f t).cost :=
-  ⟨(mkEdit_refines C04.noAtoms o orc f hf t [] []).scr, (mkEdit_refines C04.noAtoms o orc f hf t [] []).fin⟩
+  ⟨(mkEdit_refines C04.noAtoms o orc f t [] []).scr, (mkEdit_refines C04.noAtoms o orc f t [] []).fin⟩
 
 /-- FULL STATEMENT `history_independent` with its last link: finishing `from.edits(to)` after ANY history, with any
     `quiet` setting, yields exactly L2's script `edits o orc [] [] f t` (C01–C03 are theorems about that script) -/
@@ -132,7 +134,7 @@ theorem history_independent_L2 (q1 q2 : Bool) (o : Opts) (orc : Orc) (f t : Tree
       finish q1 F n m1 = .ok (m2, toD (edits o orc.assign [] [] f t)) ∧
       finish q2 F n (mkEdit o orc [] [] f t) = .ok (m3, toD (edits o orc.assign [] [] f t)) := by
   have := history_independent q1 q2 o orc f t hf hkf hkt ht F n hF hn ops
-  rwa [(mkEdit_refines_L2 o orc f t hf).1] at this
+  rwa [(mkEdit_refines_L2 o orc f t).1] at this
 
 /-- every observed interval contains L2's cost -/
 theorem observations_contain_L2_cost (q : Bool) (o : Opts) (orc : Orc) (f t : Tree) (hf : f.noDict = true)
@@ -142,7 +144,51 @@ theorem observations_contain_L2_cost (q : Bool) (o : Opts) (orc : Orc) (f t : Tr
     ∃ m' rs, run q F n (mkEdit o orc [] [] f t) ops = .ok (m', rs) ∧
       Nested (edits o orc.assign [] [] f t).cost (initIv (mkEdit o orc [] [] f t)) rs := by
   have := observations_nested q o orc f t hf hkf hkt ht F n hF hn ops
-  rwa [(mkEdit_refines_L2 o orc f t hf).2] at this
+  rwa [(mkEdit_refines_L2 o orc f t).2] at this
+
+/-- FULL STATEMENT `no_internal_error` for every pair of DOCUMENTS and every option set: no sequence of public
+    operations on `build o f`.edits(`build o t`) raises, for both values of `quiet`.  Hypotheses: distinct keys
+    (Python dicts), a solver oracle with full-size answers, and — only without key edits — `t` in the domain `fkOK`
+    of FixedKeyDictNodeEdit's static bound (outside it the statement is false: D24). -/
+theorem no_internal_error_docs (q : Bool) (o : Opts) (orc : Orc) (f t : Doc) (hkf : f.KeysDistinct)
+    (hkt : t.KeysDistinct) (horc : OrcFull orc.assign) (hdom : o.ake = false → (build o t).fkOK = true) (F n : Nat)
+    (hF : muG C04.noAtoms (mkEdit o orc [] [] (build o f) (build o t)) < F)
+    (hn : height (mkEdit o orc [] [] (build o f) (build o t)) ≤ n + 1) (ops : List Op) (e : Err) :
+    run q F n (mkEdit o orc [] [] (build o f) (build o t)) ops ≠ .error e := by
+  have hI : (G C04.noAtoms F (n + 1)).I (mkEdit o orc [] [] (build o f) (build o t)) := by
+    cases hake : o.ake with
+    | true => exact C04.mkEdit_invariant_dict o orc _ _ (build_noFdict o hake f) horc F (n + 1) hF hn
+    | false =>
+      exact C04.mkEdit_invariant o orc _ _ (build_noDict o hake f) (build_kd o f hkf) (build_kd o t hkt) (hdom hake)
+        F (n + 1) hF hn
+  exact no_internal_error_every_machine q F (by omega) n _ hI hF ops e
+
+/-- FULL STATEMENT `history_independent` for every pair of documents: finishing after ANY history gives the same
+    script as finishing at once, for any two settings of `quiet`, and that script is L2's `diffDocs o orc f t` (the
+    object of C01–C03); every observed interval lies in the previous one and contains L2's cost -/
+theorem history_independent_docs (q1 q2 : Bool) (o : Opts) (orc : Orc) (f t : Doc) (hkf : f.KeysDistinct)
+    (hkt : t.KeysDistinct) (horc : OrcFull orc.assign) (hdom : o.ake = false → (build o t).fkOK = true) (F n : Nat)
+    (hF : muG C04.noAtoms (mkEdit o orc [] [] (build o f) (build o t)) < F)
+    (hn : height (mkEdit o orc [] [] (build o f) (build o t)) ≤ n + 1) (ops : List Op) :
+    ∃ m1 rs m2 m3, run q1 F n (mkEdit o orc [] [] (build o f) (build o t)) ops = .ok (m1, rs) ∧
+      Nested (diffDocs o orc.assign f t).cost
+        (viewG C04.noAtoms (mkEdit o orc [] [] (build o f) (build o t))) rs ∧
+      finish q1 F n m1 = .ok (m2, toD (diffDocs o orc.assign f t)) ∧
+      finish q2 F n (mkEdit o orc [] [] (build o f) (build o t)) = .ok (m3, toD (diffDocs o orc.assign f t)) := by
+  have hI : (G C04.noAtoms F (n + 1)).I (mkEdit o orc [] [] (build o f) (build o t)) := by
+    cases hake : o.ake with
+    | true => exact C04.mkEdit_invariant_dict o orc _ _ (build_noFdict o hake f) horc F (n + 1) hF hn
+    | false =>
+      exact C04.mkEdit_invariant o orc _ _ (build_noDict o hake f) (build_kd o f hkf) (build_kd o t hkt) (hdom hake)
+        F (n + 1) hF hn
+  obtain ⟨m1, rs, m2, m3, h1, h2, h3⟩ := history_independent_every_machine q1 q2 F (by omega) n _ hI hF ops
+  obtain ⟨m1', rs', h1', hn'⟩ := observations_nested_every_machine q1 F (by omega) n _ hI hF ops
+  rw [h1] at h1'
+  cases h1'
+  have hr := mkEdit_refines_L2 o orc (build o f) (build o t)
+  rw [hr.1] at h2 h3
+  rw [hr.2] at hn'
+  exact ⟨m1, rs, m2, m3, h1, hn', h2, h3⟩
 
 /-- EditDistance invariant "matrix freed ⇒ script cached" (the state in which defect D8 dereferenced `None` is
     unreachable): preserved by `bounds()`, `tighten_bounds()` and `on_diff()`/`edits()` WHATEVER the cells do, and true
@@ -179,5 +225,21 @@ example (q : Bool) (ops : List Op) (e : Err) :
       (mkEdit {} {} [] [] exF exT) ops ≠ .error e :=
   no_internal_error q {} {} exF exT (by decide) (by decide) (by decide) (by decide) _ _ (Nat.lt_succ_self _)
     (Nat.le_succ _) ops e
+
+theorem orcFull_nil : OrcFull ([] : Oracle) := by
+  intro fps tps
+  simp [Oracle.lookup, identityPairs]
+
+/-- non-vacuity of the document-level statement: default options, two objects with a shared key, a removed key, an
+    inserted key and a list alignment below — a MultiSetEdit over a matcher, key/value pair edits, an EditDistance -/
+def exDocF : Doc := .obj [([97], .scalar (.int 1)), ([98], .list [.scalar (.int 1), .scalar (.int 2)])]
+def exDocT : Doc := .obj [([97], .scalar (.int 2)), ([99], .list [.scalar (.int 1), .scalar (.int 3)])]
+
+example (q : Bool) (ops : List Op) (e : Err) :
+    run q (muG C04.noAtoms (mkEdit {} {} [] [] (build {} exDocF) (build {} exDocT)) + 1)
+      (height (mkEdit {} {} [] [] (build {} exDocF) (build {} exDocT)))
+      (mkEdit {} {} [] [] (build {} exDocF) (build {} exDocT)) ops ≠ .error e :=
+  no_internal_error_docs q {} {} exDocF exDocT (by decide) (by decide) orcFull_nil (fun h => by cases h) _ _
+    (Nat.lt_succ_self _) (Nat.le_succ _) ops e
 
 end GtModel.C05
